@@ -14,6 +14,7 @@ import (
 	"strconv"
 	"strings"
 
+	"cuelang.org/go/internal/mod/semver"
 	"cuelang.org/go/internal/par"
 	"cuelang.org/go/internal/robustio"
 	"cuelang.org/go/internal/verifhook"
@@ -140,8 +141,9 @@ func (c *Cache) Fetch(ctx context.Context, mv module.Version) (module.SourceLoc,
 		// The temporary directories were named with a random number after
 		// the prefix. Do not match anything else: "v0.0.1-a.tmp-x" is a valid
 		// version, and its directory must not be removed when v0.0.1-a is
-		// extracted.
-		if suffix, ok := strings.CutPrefix(entry.Name(), tmpPrefix); ok && isAllDigits(suffix) {
+		// extracted. The same goes for "v0.0.1-a.tmp-1", which is why
+		// directories that are named after a version themselves are skipped.
+		if suffix, ok := strings.CutPrefix(entry.Name(), tmpPrefix); ok && isAllDigits(suffix) && !isVersionDir(entry.Name()) {
 			RemoveAll(filepath.Join(parentDir, entry.Name())) // best effort
 		}
 	}
@@ -193,6 +195,18 @@ func (c *Cache) Fetch(ctx context.Context, mv module.Version) (module.SourceLoc,
 	makeDirsReadOnly(dir)
 	verifhook.At("fetch.done")
 	return c.dirToLocation(dir), nil
+}
+
+// isVersionDir reports whether name, the name of an entry of the extraction
+// directory, has the form <module path element>@<version>.
+func isVersionDir(name string) bool {
+	_, escVers, ok := strings.Cut(name, "@")
+	if !ok {
+		return false
+	}
+	// In an escaped version an upper case letter is written as "!" followed
+	// by the lower case letter; the case of letters is irrelevant here.
+	return semver.IsValid(strings.ReplaceAll(escVers, "!", ""))
 }
 
 // isAllDigits reports whether s is a non-empty string of decimal digits.
